@@ -9,3 +9,5 @@ mod piecewise_linear_map;
 pub mod types;
 pub mod util;
 pub mod variations;
+#[cfg(fontc_verif)]
+pub mod verif;
